@@ -51,14 +51,17 @@ type sliceGetter func(req *protocol.Request, params param.Params, key string, de
 
 func pathSlice(req *protocol.Request, params param.Params, key string, defaultValue ...string) (ret []string) {
 	var value string
+	var exist bool
 	if params != nil {
-		value, _ = params.Get(key)
+		value, exist = params.Get(key)
 	}
 
 	if len(value) == 0 && len(defaultValue) != 0 {
 		value = defaultValue[0]
 	}
-	if len(value) != 0 {
+	// a parameter that is present with an empty value ("/files/" on "/files/*rest") is a value,
+	// as it is for the scalar getter and for the slice getters of the other sources
+	if len(value) != 0 || exist {
 		ret = append(ret, value)
 	}
 
